@@ -154,7 +154,12 @@ def scenario_b(transport, ka, T, R, hist):
             by_reg[reg] = [["rxerr", errno.ECONNREFUSED, 0.0]] * (R + 1)
         elif h == "J":
             by_reg[reg] = [["exc", 3]]
-        steps.append(["rsensor" if i % 2 == 0 else "wsetting", reg] + ([] if i % 2 == 0 else [5]))
+        if i % 3 == 2:          # the raw-command entry point takes part in the same count
+            cmd_ = {"kind": "read", "comm": 0xF7, "reg": reg, "count": 1}
+            pdu = rc.tcp_request_pdu(cmd_)
+            steps.append(["rawcmd", (rc.rtu_request(cmd_) if framing == "rtu" else b"\x00\x01\x00\x00" + len(pdu).to_bytes(2, "big") + pdu).hex()])
+        else:
+            steps.append(["rsensor" if i % 2 == 0 else "wsetting", reg] + ([] if i % 2 == 0 else [5]))
     return {"transport": transport, "framing": framing, "keep_alive": ka, "T": T, "R": R, "by_reg": by_reg,
             "after": "drop", "hist": "".join(hist), "tasks": [{"start": 0.0, "steps": steps}]}
 
@@ -181,6 +186,8 @@ def run_b(sc, part):
                            f"history {sc['hist']}: request #{rec['idx']} failed with consecutive_failures_count={cfc}, "
                            f"expected {failed}" + (f"..{failed + rejected}" if rejected else "")))
         want = {"S": "ok", "F": "RequestFailedException", "J": "RequestRejectedException"}.get(h)
+        if rec["step"][0] == "rawcmd" and h == "J":
+            want = "ok"         # (send_command() takes any answer: a raw command has no validator, the exception frame IS its response)
         if want and o != want and o in OK_TYPES:
             vs.append((f"C09/{tag}/history-outcome", f"history {sc['hist']}: request #{rec['idx']} scripted {h} ended {o}"))
     part.see(repr(("B", tag, sc["keep_alive"], sc["R"], sc["hist"])))
